@@ -859,7 +859,8 @@ struct Job {
 
 fn parent_main(prop: &Property, args: &Args, root: &Path, known: &[KnownEntry], seed: u64) -> i32 {
     let t0 = Instant::now();
-    let work = root.join("work").join(prop.id);
+    // one work directory per run: two runs of the same check at the same time must not disturb each other
+    let work = root.join("work").join(format!("{}.{}", prop.id, std::process::id()));
     let _ = std::fs::remove_dir_all(&work);
     std::fs::create_dir_all(&work).unwrap();
     let exe = std::env::current_exe().unwrap();
